@@ -5,20 +5,44 @@ from driver.common import Case
 ID = "C13"
 LEAN_MODULES = ["Gv.Props.C13"]
 REQUIRED_THEOREMS = ["Gv.Props.C13." + n for n in [
-    "patternTable_spec", "additive_statistic_preserved", "dedup_distinct_and_complete"]]
-LEVEL_TEXT = ("Lean theorems: the sorted pattern table of Compress has pairwise distinct strictly increasing patterns, weights summing "
-              "to the number of columns, and its expansion is a permutation of the original columns (so every column-additive statistic "
-              "is preserved); the reference de-duplication keeps first occurrences in order, its groups partition the names and it is "
-              "idempotent; tied to /repo by bounded-exhaustive + random correspondence and independent predicates.")
+    "patternTable_spec", "additive_statistic_preserved", "dedup_distinct_and_complete",
+    # the model of Compress() itself
+    "patternTable_mem", "compress_columns", "compress_spec", "compress_additive_statistic",
+    # the Go-mirroring model of Deduplicate
+    "dedup_model_eq_reference", "firstOccs_mem_iff", "dedup_keeps_first_occurrences_in_order",
+    "dedup_groups_partition_names", "dedup_group_led_by_kept", "dedup_idempotent",
+    "dedupKey_spec", "dedupKey_nt_eq_iff", "dedup_sequences_any_names",
+    # kernel-checked witnesses that the distinct-names assumption is needed
+    "dedup_repeated_names_renamed", "dedup_repeated_names_dropped"]]
+LEVEL_TEXT = ("Lean theorems, all inputs: (Compress) the model of Compress() keeps names and row order, gives every row the new "
+              "length and one positive weight per new column; the new columns are pairwise distinct, the weights sum to the number of "
+              "sites, expanding each new column by its weight is a rearrangement of the original columns, each new column occurs among "
+              "the original ones exactly weight times and every original column is a new column (compress_spec), so any column-additive "
+              "statistic equals its weighted sum (compress_additive_statistic). (Deduplicate) for every uniquely named container, every "
+              "alphabet, duplicate-name policy and nAsGap, the Go-mirroring model (Clear + AddSequence through the name index, "
+              "compare-string map, identical slice) returns no error, keeps exactly the rows whose key has no earlier occurrence, in "
+              "original order with names and residues untouched (dedup_keeps_first_occurrences_in_order), its groups are a rearrangement "
+              "of the names with no empty group (dedup_groups_partition_names), group k starts with the k-th kept row and holds exactly "
+              "the names of the rows with that row's key (dedup_group_led_by_kept), and a second pass changes nothing and reports "
+              "singletons (dedup_idempotent); for ANY container (names possibly repeated) under the policies NONE / IGNORE_SEQUENCE the kept "
+              "sequences are still exactly the first occurrences in order and the groups the reference groups "
+              "(dedup_sequences_any_names); the N/X-as-gap key is characterised (dedupKey_spec, dedupKey_nt_eq_iff). Tied to /repo by "
+              "bounded-exhaustive + random correspondence; the oracle's expected value is Spec.firstOccs / Spec.groupsOf, the "
+              "definitions the theorems are about.")
 LEVEL_NOTE = ("Trusted: Lean kernel; harness/oracle/driver; go-radix Walk visiting keys in increasing byte order is an external "
               "assumption validated by the correspondence.")
-TECHNIQUE = "Lean 4 proof (sorted-insertion invariants, multiset counts) + bounded-exhaustive differential correspondence"
+TECHNIQUE = ("Lean 4 proof (sorted-insertion invariants, multiset counts; loop invariant relating the container/index/map state of "
+             "Deduplicate to the reference accumulator, closed form by snoc induction) + bounded-exhaustive differential correspondence")
 RULE = ("exhaustive: all alignments of <= 3 rows x <= 4 columns over {A,C,-} (compress) and all 3-row sets over sequences of length 2 "
         "over {A,N,-} (dedup); random larger ones incl. all-identical, all-distinct, single row / column; non-trivial = at least one "
         "repeated and one unique pattern/row")
-PARTIAL = ["de-duplication: proved for the reference model (distinct keys, completeness); order of first occurrences, group partition, "
-           "leaders and idempotence are checked by the independent predicate on the implementation (and the container model of C01 by "
-           "correspondence), not yet as Lean theorems",
+PARTIAL = ["the name-level de-duplication theorems (kept rows = first occurrences with their names, partition, leaders, idempotence) "
+           "assume pairwise distinct names (the container invariant of C01). With a name repeated by a caller's Rename the re-adding "
+           "renames kept rows (dedup_repeated_names_renamed; sequences and groups are still right: dedup_sequences_any_names), and "
+           "under IGNORE_NAME it drops rows with distinct sequences while still reporting their groups "
+           "(dedup_repeated_names_dropped, reproduced on the Go code); the reference model of C01 leaves that case unspecified",
+           "Compress: the order of the new columns (increasing byte order, go-radix Walk) is an assumption of the model checked by "
+           "correspondence; no theorem depends on it except patternTable_spec's sortedness clause",
            "Compress on the empty alignment sets the length to 0 instead of -1 (outside the quantifier, modelled as is)"]
 
 
